@@ -21,7 +21,7 @@ RULE = ("(a) BatchSage: data sets of 1..6 rows, d in 1..4, exact rationals or fl
         "interval_length 1..5, storage_length 1..5 (a recomputation on an empty window is never generated). Oracle (iii): on a "
         "non-multiple unforced call the returned dict equals the previous values with ZERO model and loss evaluations; otherwise (i) "
         "holds on exactly the window = last storage_length stored observations, the model is evaluated once on the whole window plus "
-        "|window|*d*n_inner single calls; seen_samples == number of calls. Non-trivial: n>=2 and d>=2 (batch); history with a forced "
+        "|window|*d*n_inner single calls; seen_samples == number of calls. After every call the storage content and the caller's observation dicts are compared BY VALUE with copies taken at arrival. Non-trivial: n>=2 and d>=2 (batch); history with a forced "
         "call on a non-multiple ordinal, an unforced skip and a window that has slid (interval); distinct by case digest.")
 ASSUMPTIONS = ["fractions.Fraction arithmetic", "original mode: feature names cover every feature the model reads (true by construction)"]
 
@@ -218,12 +218,25 @@ def run_batch(case):
             return 'per-feature-average', f'{how}: {bad}'
         return None
 
+    snapshots = []
+
+    def storage_intact():
+        """Explaining must not modify the observations (the storage holds the caller's dicts): compare BY VALUE with copies taken
+        at arrival time (C05 anchors ixai/storage/interval_storage.py; this is the observed-data clause of C07 reached through the explainer)."""
+        stored = [dict(r) for r in storage.get_data()[0]]
+        if stored != [s_[0] for s_ in snapshots] or list(storage.get_data()[1]) != [s_[1] for s_ in snapshots]:
+            return 'storage-modified', f'{how}: after explaining, the storage holds {stored!r}; the observations that arrived were {[s_[0] for s_ in snapshots]!r}'
+        if [dict(x_) for x_ in xs] != [s_[0] for s_ in snapshots]:
+            return 'observations-modified', f'{how}: the caller\'s observation dicts were modified'
+        return None
+
     try:
         if how in ('one', 'original_one'):
             for r in case['rows']:
                 x = {n_: num(v, mode) for n_, v in zip(names, r['x'])}
                 y = num(r['y'], mode)
                 xs.append(x), ys.append(y)
+                snapshots.append((dict(x), y))
                 im, mm = len(imp.calls), len(model.calls)
                 kw = dict(call_kw)
                 if how == 'original_one':
@@ -231,6 +244,7 @@ def run_batch(case):
                 with PermRecorder() as pr:
                     ret = ex.explain_one(x, y, **kw)
                 err = check(ret, xs, ys, imp.calls[im:], model.calls[mm:], how == 'original_one', pr.out)
+                err = err or storage_intact()
                 checks += 1
                 if err:
                     return Result(False, key=f'C05:batch:{err[0]}', detail=f'after {len(xs)} observations: {err[1]}')
@@ -241,6 +255,7 @@ def run_batch(case):
                 x = {n_: num(v, mode) for n_, v in zip(names, r['x'])}
                 y = num(r['y'], mode)
                 xs.append(x), ys.append(y)
+                snapshots.append((dict(x), y))
                 ex.update_storage(x, y)
             im, mm = len(imp.calls), len(model.calls)
             with PermRecorder() as pr:
@@ -249,6 +264,7 @@ def run_batch(case):
                 else:
                     ret = ex.explain_many_original(list(xs), list(ys), **call_kw)
             err = check(ret, xs, ys, imp.calls[im:], model.calls[mm:], how == 'original_many', pr.out)
+            err = err or storage_intact()
             checks += 1
             if err:
                 return Result(False, key=f'C05:batch:{err[0]}', detail=err[1])
